@@ -800,7 +800,14 @@ def _desugar_factors_with_weights(design: List[Factor],
                 # Uses `replacements`:
                 f.desugar_for_weights(replacements)
         # Returned `replacements` is also used for constraint desugaring
-        return (list(chain.from_iterable([replacements.get(f, [f]) for f in design])),
+        # A weighted factor is replaced by two factors, while the replacement of
+        # a derived factor is recorded twice and must enter the design once
+        new_design = cast(List[Factor], [])
+        for f in design:
+            for new_f in replacements.get(f, [f]):
+                if not any(new_f is df for df in new_design):
+                    new_design.append(new_f)
+        return (new_design,
                 [[replacements.get(f, [f, f])[1] for f in c] for c in crossings],
                 replacements)
 
